@@ -52,7 +52,9 @@ def gen_db(rng, tier, seed):
     subs = []
     pushes = []
     for _ in range(rng.randint(0, 6)):
-        subs.append([rng.randrange(3), rng.randrange(100), rng.random() < 0.5])  # bearer index, char pick, prefer_notify
+        # bearer index, char pick, prefer_notify, how: through the Client, or through the characteristic proxy - once, or the same
+        # callback twice - possibly taken back again before anything is pushed
+        subs.append([rng.randrange(3), rng.randrange(100), rng.random() < 0.5, rng.choice(['client', 'client', 'proxy', 'proxy_twice', 'proxy_unsub', 'proxy_twice_unsub'])])
     for _ in range(rng.randint(0, 8)):
         pushes.append([rng.choice(['notify_subscribers', 'indicate_subscribers', 'notify_subscriber', 'indicate_subscriber', 'indicate_subscriber_bearer']),
                        rng.randrange(100), rng.choice([-999, -4, -3, -2, 0, 1, 10]), rng.randrange(3), rng.choice([-1, -1, -1, 0, 1, 2])])  # -999: an explicit empty value
@@ -62,6 +64,11 @@ def gen_db(rng, tier, seed):
         pick = rng.randrange(100)
         subs = [[0, pick, False], [1, pick, False], [2, pick, False]] + subs
         pushes.insert(rng.randrange(len(pushes) + 1), ['indicate_subscribers', pick, 0, 0, rng.choice([-1, 0, 1, 2])])
+    if len(db['services']) >= 2 and rng.random() < 0.2:
+        # two instances of one service (the same UUID twice, as two batteries would be): the client must keep both apart
+        i, j = rng.sample(range(len(db['services'])), 2)
+        db['services'][j]['uuid'] = db['services'][i]['uuid']
+        db['services'][j]['primary'] = db['services'][i]['primary'] = True
     return {'db': db, 'client_mtu': cm, 'server_mtu': sm, 'exchange': rng.random() < 0.8, 'nclients': nclients, 'eatt': eatt,
             'eatt_mtu': [rng.choice([64, 100, 247]), rng.choice([64, 100, 247])], 'subs': subs, 'pushes': pushes,
             'writes': rng.randint(0, 4), 'profile': rng.choice(PROFILE_NAMES), '_lists': ['subs', 'pushes'], 'passerby': rng.random() < 0.3,
@@ -226,7 +233,8 @@ def run_db(case):
                         if notify_enabled:
                             sim.loop.create_task(server.notify_subscriber(bearer, ch, b'hello'))
                     ch.on('subscription', on_sub)
-            for bi, pick, prefer in case['subs']:
+            for bi, pick, prefer, *how in case['subs']:
+                how = how[0] if how else 'client'
                 bi %= len(bearers)
                 b = bearers[bi]
                 (si, ci), ch = sub_chars[pick % len(sub_chars)]
@@ -237,10 +245,27 @@ def run_db(case):
                 props = ch.properties
                 kind = 'notify' if (props & P_NOTIFY and (prefer or not props & P_INDICATE)) else 'indicate'
                 fired[(bi, vh)] = []
-                st, t = sim.run(b['client'].subscribe(proxy, lambda v, key=(bi, vh): fired[key].append(bytes(v)), prefer_notify=prefer), 60.0)
+                cb = lambda v, key=(bi, vh): fired[key].append(bytes(v))  # noqa: E731
+
+                async def subscribe(proxy=proxy, cb=cb, how=how, b=b, prefer=prefer):
+                    if how == 'client':
+                        await b['client'].subscribe(proxy, cb, prefer_notify=prefer)
+                        return
+                    await proxy.subscribe(cb, prefer_notify=prefer)
+                    if 'twice' in how:
+                        await proxy.subscribe(cb, prefer_notify=prefer)
+                    if how.endswith('unsub'):
+                        await proxy.unsubscribe(cb)
+                st, t = sim.run(subscribe(), 60.0)
                 sim.loop.settle()
                 if st != 'done' or t.exception() is not None:
                     sim.violation_once('sub', f'subscribe-failed:{b["kind"]}', str(st if st != 'done' else t.exception()))
+                    continue
+                if how != 'client':
+                    sim.probe('subscribed_through_the_characteristic_proxy')
+                if how.endswith('unsub'):
+                    # taken back: this bearer is not subscribed (what the pushes are judged against)
+                    sim.probe('subscription_taken_back_before_the_pushes')
                     continue
                 subscribed[(bi, vh)] = kind
                 if case.get('push_on_subscribe') and kind == 'notify':
@@ -475,6 +500,13 @@ def _compare_discovery(sim, b, services, attrs, layout, server, case):
         extra = [g for g in got if g not in want]
         what = 'missing' if missing and not extra else ('extra' if extra and not missing else 'different')
         sim.violation_once('disc-svc', f'discovery:services-{what}:{kind}', f'client sees {[(g[0], g[1]) for g in got]}, server has {[(w[0], w[1]) for w in want]}')
+        return
+    # the client's own service list (what Peer.services, get_services_by_uuid and a discovery without a service argument walk)
+    # holds every one of them too
+    kept = {(s.handle, s.end_group_handle) for s in getattr(b['client'], 'services', [])}
+    lost = [(w[0], w[1]) for w in want if (w[0], w[1]) not in kept]
+    if lost:
+        sim.violation_once('disc-svc', f'discovery:service-missing-from-the-client-list:{kind}', f'discover_services() returned {len(got)} services, the client keeps {sorted(kept)}; not kept: {lost}')
         return
     by_handle = {s.handle: s for s in services}
     for svc in layout:
